@@ -176,6 +176,32 @@ theorem class_call_eq_function (eps : Rat) (c : Metric) (o : ClsOpts) (yt yp : M
                    sym := o.sym, sqrt := o.sqrt, sp := o.sp, thr := o.thr, l := o.l, r := o.r, rlf := o.rlf } := by
   cases c <;> rfl
 
+/-- … and this holds over the whole life of a metric object: after ANY history of `set_params`, attribute
+assignments, `clone`s and earlier calls (on any data), a call returns what the function returns with the options the
+object holds NOW — the last ones set, or the constructor's if none were set — exactly as a freshly constructed object
+with those options does; in particular no state is carried from one call to the next. -/
+theorem class_history_eq_function (eps : Rat) (c : Metric) (o : ClsOpts) (hist : List ObjOp) (yt yp : Mat) (kw : Kw) :
+    (Obj.run eps { c := c, opts := o } (hist ++ [.call yt yp kw])).getLast? =
+      some (classCall eps c (Obj.optsAfter o hist) yt yp kw) ∧
+    Obj.run eps { c := c, opts := Obj.optsAfter o hist } [.call yt yp kw] =
+      [classCall eps c (Obj.optsAfter o hist) yt yp kw] := by
+  refine ⟨?_, rfl⟩
+  induction hist generalizing o with
+  | nil => rfl
+  | cons op rest ih =>
+    cases op with
+    | setParams o' => exact ih o'
+    | setAttr o' => exact ih o'
+    | clone => exact ih o
+    | call yt' yp' kw' =>
+      have h := ih o
+      simp only [List.cons_append, Obj.run, Obj.step, Obj.optsAfter] at *
+      rw [List.getLast?_cons, h]; rfl
+
+/-- e.g. MeanSquaredError() → set_params(square_root=True) → call: the RMSE (root degree 2), not the MSE -/
+example : Obj.run EPS { c := .mse, opts := {} } [.setParams { sqrt := true }, .call [[1, 2]] [[2, 4]] {}]
+    = [.ok (.avg 2 none [5/2])] := by decide +kernel
+
 /-- regression of the former class defects (every one of the ten classes that used to raise now returns a value) -/
 example : ∀ m ∈ [Metric.mase, .mdase, .msse, .mdsse, .mrae, .mdrae, .gmrae, .gmrse, .masym, .relloss],
     (classCall EPS m { sp := 2 } [[1, 2, 3]] [[3/2, 2, 2]]
